@@ -191,11 +191,11 @@ func TestC04(t *testing.T) {
 
 // C06: queued jobs start in the order they were accepted.
 func TestC06(t *testing.T) {
-	cfg := &Cfg{Prop: "C06", MaxPipelines: 1, MaxTasks: 2, DelayPct: 35, ReplacePct: 0, CyclicPct: 8, ReservedPct: 12,
-		LimitChoices: []int{-1, -1, -1, 3}, Weights: map[string]int{"schedule": 40, "cancel": 12, "finish": 30, "timer": 14, "hold": 2, "release": 3, "scheduleCompleting": 6},
+	cfg := &Cfg{Prop: "C06", MaxPipelines: 1, MaxTasks: 2, DelayPct: 35, ReplacePct: 0, CyclicPct: 8, ReservedPct: 12, Retention: true,
+		LimitChoices: []int{-1, -1, -1, 3}, Weights: map[string]int{"schedule": 40, "cancel": 12, "finish": 30, "timer": 14, "hold": 2, "release": 3, "scheduleCompleting": 6, "saveRetention": 5},
 		Armed: map[string]bool{"C06": true}}
 	runHistories(t, histOpts{cfg: cfg, failPct: 20,
-		rule: "single-pipeline histories without reload, queue unbounded or 3, concurrency 1-3, cancels of head/middle/tail, unstartable heads, failures, timers fired out of order, schedule requests that arrive while a job of the pipeline completes (last task done, runner held inside Finish); oracle at every observed start of a job: no earlier-accepted job of the pipeline is still waiting (accepted, not started, not canceled); non-trivial = >=3 jobs waited at once, >=1 of them was canceled or could not start, and >=2 waited jobs started later; distinct by action trace",
+		rule: "single-pipeline histories without reload, queue unbounded or 3, concurrency 1-3, cancels of head/middle/tail, unstartable heads, failures, timers fired out of order, schedule requests that arrive while a job of the pipeline completes (last task done, runner held inside Finish), retention settings with saves in between (finished jobs disappear from the runner's lists while others wait); oracle at every observed start of a job: no earlier-accepted job of the pipeline is still waiting (accepted, not started, not canceled); non-trivial = >=3 jobs waited at once, >=1 of them was canceled or could not start, and >=2 waited jobs started later; distinct by action trace",
 		nontrivial: func(c map[string]int) bool {
 			return c["waiting>=3"] > 0 && (c["cancel:waiting"] > 0 || c["bad-waited"] > 0) && c["dequeue-start"] >= 2
 		}})
